@@ -280,13 +280,18 @@ class PDFXRefStream(PDFBaseXRef):
         (_, stream) = parser.nextobject()
         if not isinstance(stream, PDFStream) or stream.get("Type") is not LITERAL_XREF:
             raise PDFNoValidXRef("Invalid PDF stream spec.")
-        size = stream["Size"]
-        index_array = stream.get("Index", (0, size))
-        if len(index_array) % 2 != 0:
-            raise PDFSyntaxError("Invalid index number")
+        try:
+            size = stream["Size"]
+            index_array = stream.get("Index", (0, size))
+            if len(index_array) % 2 != 0:
+                raise PDFSyntaxError("Invalid index number")
+            (fl1, fl2, fl3) = stream["W"]
+        except (KeyError, TypeError, ValueError):
+            raise PDFNoValidXRef("Invalid xref stream dictionary: %r" % stream)
+        if not all(isinstance(x, int) for x in (fl1, fl2, fl3, *index_array)):
+            raise PDFNoValidXRef("Invalid xref stream dictionary: %r" % stream)
         self.ranges.extend(cast(Iterator[Tuple[int, int]], choplist(2, index_array)))
-        (self.fl1, self.fl2, self.fl3) = stream["W"]
-        assert self.fl1 is not None and self.fl2 is not None and self.fl3 is not None
+        (self.fl1, self.fl2, self.fl3) = (fl1, fl2, fl3)
         self.data = stream.get_data()
         self.entlen = self.fl1 + self.fl2 + self.fl3
         self.trailer = stream.attrs
